@@ -234,23 +234,31 @@ def check_tree(c, item):
                 ns_, np_ = len(s2i), len(p2i)
                 s2r = {k_: ns_ - 1 - v_ for k_, v_ in s2i.items()}
                 p2r = {k_: np_ - 1 - v_ for k_, v_ in p2i.items()}
-                try:
-                    term_r = parse_expression(text, s2r, p2r)
-                except Exception:
-                    term_r = None
-                if term_r is not None:
+                # (two further layouts: both reversed; species reversed with the parameters numbered as before)
+                for lname, s2x, p2x, rev_p in (('both reversed', s2r, p2r, True), ('species reversed', s2r, p2i, False)):
+                    try:
+                        term_r = parse_expression(text, s2x, p2x)
+                    except Exception:
+                        term_r = None
+                    if term_r is None:
+                        continue
+                    stop_ = False
                     for (pi, pt, t, V), ref in zip(point_iter(), refs):
                         if pi > 1:
                             break
                         _, _, st, pr = pts[pi]
+                        pr_x = pr[::-1].copy() if rev_p else pr
                         try:
-                            got = term_r.py_evaluate(st[::-1].copy(), pr[::-1].copy(), t) if V is None else term_r.py_volume_evaluate(st[::-1].copy(), pr[::-1].copy(), V, t)
+                            got = term_r.py_evaluate(st[::-1].copy(), pr_x, t) if V is None else term_r.py_volume_evaluate(st[::-1].copy(), pr_x, V, t)
                         except Exception:
                             got = None
                         c.count('evaluations'); c.count('transitions')
-                        if compare(c, 'C02/value/%s/parse_expression-second-layout' % opkey(tr), tr, text, 'parse_expression for a second index layout', got, ref,
+                        if compare(c, 'C02/value/%s/parse_expression-second-layout' % opkey(tr), tr, text, 'parse_expression for a second index layout (%s)' % lname, got, ref,
                                    dict(cfg=cfg, point=pi, t=t, volume=V)):
+                            stop_ = True
                             break
+                    if stop_:
+                        break
             for (pi, pt, t, V), ref in zip(point_iter(), refs):
                 _, _, st, pr = pts[pi]
                 try:
